@@ -28,6 +28,10 @@ pub struct Scn {
     pub files: Vec<FileSpec>,
     pub max_depth: usize,
     pub short_reads: bool,
+    /// odd-path scenario: (the path as spelled in the directive - quotes, escapes -, hex of the
+    /// octets it denotes, relative to the root file's directory, optional origin argument)
+    #[serde(default)]
+    pub odd_path: Option<(String, String, Option<String>)>,
 }
 pub struct C25;
 
@@ -155,6 +159,23 @@ impl Prop for C25 {
             files[i].at = range(r, 0, 120) as usize;
         }
         if chance(r, 2) {
+            // a file name that needs quoting or escapes in the directive, including octets that are
+            // not UTF-8 (a Latin-1 name): the directive denotes octets, and the file with exactly
+            // those octets as its name must be opened
+            let spellings: &[(&str, &[u8])] = &[
+                    ("\"sub/my hosts.zone\"", b"sub/my hosts.zone"),
+                    ("sub/my\\ hosts.zone", b"sub/my hosts.zone"),
+                    ("sub/caf\\233.zone", b"sub/caf\xe9.zone"),
+                    ("\"sub/caf\\233 hosts.zone\"", b"sub/caf\xe9 hosts.zone"),
+                    ("sub/\\099afe.zone", b"sub/cafe.zone"),
+                    ("\"sub/semi;colon.zone\"", b"sub/semi;colon.zone"),
+                    ("sub/\\255\\254.zone", b"sub/\xff\xfe.zone"),
+            ];
+            let (text, octets) = *pick(r, spellings);
+            let origin = if chance(r, 50) { Some(pick(r, ORIGINS).to_string()) } else { None };
+            return Scn { files: vec![], max_depth: *pick(r, &[1usize, 4, 16]), short_reads: chance(r, 30), odd_path: Some((text.to_string(), crate::util::hex(octets), origin)) };
+        }
+        if chance(r, 2) {
             // many *consecutive* includes of files that hold no record (comments, blank lines, a
             // directive): textual inclusion yields nothing for them; the parser must get through
             // them in bounded stack, however many there are
@@ -174,9 +195,9 @@ impl Prop for C25 {
                 FileSpec { path: format!("{}/f0.zone", DIRS[0]), lines, fault: 0, at: 0 },
                 FileSpec { path: format!("{}/e.zone", DIRS[0]), lines: empty, fault: 0, at: 0 },
             ];
-            return Scn { files, max_depth: *pick(r, &[1usize, 4, 16]), short_reads: chance(r, 30) };
+            return Scn { files, max_depth: *pick(r, &[1usize, 4, 16]), short_reads: chance(r, 30), odd_path: None };
         }
-        Scn { files, max_depth: *pick(r, &[0usize, 1, 2, 3, 4, 4, 16]), short_reads: chance(r, 30) }
+        Scn { files, max_depth: *pick(r, &[0usize, 1, 2, 3, 4, 4, 16]), short_reads: chance(r, 30), odd_path: None }
     }
     fn plan(r: &mut SplitMix, _s: &Scn) -> ExecPlan {
         ExecPlan { seed: r.next(), strategy: Strategy::Random, clock: ClockPolicy::Des, max_steps: 100_000 }
@@ -373,7 +394,58 @@ fn parse_flat(lines: &[FLine]) -> Result<Vec<Rec>, String> {
     Ok(out)
 }
 
+/// The odd-path scenario: a fixed two-file tree whose include path needs quoting or escapes.
+fn run_odd_path(scn: &Scn, text: &str, octets_hex: &str, origin: &Option<String>) {
+    use std::os::unix::ffi::OsStringExt;
+    let faults = if scn.short_reads { FaultCfg::none().with(Fault::FsShortRead, 400) } else { FaultCfg::none() };
+    simrt::start(world_cfg(9, faults));
+    simrt::probe("c25_odd_path_spelling");
+    use simrt::fs;
+    fs::mkdir("/zones");
+    fs::mkdir("/zones/sub");
+    let rel = PathBuf::from(std::ffi::OsString::from_vec(crate::util::unhex(octets_hex)));
+    let inc_path = Path::new("/zones").join(&rel);
+    let root = PathBuf::from("/zones/f0.zone");
+    let directive = match origin {
+        Some(o) => format!("$INCLUDE {text} {o} ; odd spelling"),
+        None => format!("$INCLUDE {text}"),
+    };
+    fs::write(&root, format!("$ORIGIN example.\n$TTL 300\n@ IN SOA ns hostmaster 1 60 60 60 60\n{directive}\nafter A 192.0.2.9\n").as_bytes());
+    fs::write(&inc_path, b"inc A 192.0.2.1\n  A 192.0.2.2\n");
+    // textual inclusion: the included lines under the directive's origin (or the includer's)
+    let o = origin.clone().unwrap_or_else(|| "example.".to_string());
+    let o_abs = if o.ends_with('.') { o.clone() } else { format!("{o}.example.") };
+    let expected: Vec<(PathBuf, usize, String, u16, Vec<u8>)> = vec![
+        (root.clone(), 3, "example.".into(), 6, vec![]),
+        (inc_path.clone(), 1, format!("inc.{o_abs}"), 1, vec![192, 0, 2, 1]),
+        (inc_path.clone(), 2, format!("inc.{o_abs}"), 1, vec![192, 0, 2, 2]),
+        (root.clone(), 5, "after.example.".into(), 1, vec![192, 0, 2, 9]),
+    ];
+    let mut got = vec![];
+    match quandary::zone_file::fs::Parser::open(&root, scn.max_depth) {
+        Err(e) => viol("root-open-failed", format!("{e}")),
+        Ok(parser) => {
+            for item in parser {
+                match item {
+                    Ok(l) => got.push((l.path.to_path_buf(), l.number, l.record.owner.to_string().to_ascii_lowercase(), u16::from(l.record.rr_type), if u16::from(l.record.rr_type) == 6 { vec![] } else { l.record.rdata.octets().to_vec() })),
+                    Err(e) => {
+                        viol("unexpected-error", format!("directive `{directive}` (file name octets {octets_hex}): {e}"));
+                        break;
+                    }
+                }
+            }
+        }
+    }
+    if !crate::util::has_violation() && got != expected {
+        viol("records-differ-from-textual-inclusion", format!("directive `{directive}` (file name octets {octets_hex}): parser gave {got:?}, textual inclusion gives {expected:?}"));
+    }
+    simrt::finish();
+}
+
 fn run(scn: &Scn) {
+    if let Some((text, octets_hex, origin)) = &scn.odd_path {
+        return run_odd_path(scn, text, octets_hex, origin);
+    }
     let faults = if scn.short_reads { FaultCfg::none().with(Fault::FsShortRead, 400) } else { FaultCfg::none() };
     simrt::start(world_cfg(9, faults));
     use simrt::fs;
